@@ -223,7 +223,7 @@ def _report_run_case(ctx, case, bad, tags):
     tag = tags[0]
     if tag == "infra":
         raise vlib.Infra("harness-level inconsistency in case %s: %s" % (case["id"], json.dumps(bad)[:500]))
-    detail = {k: bad[k] for k in ("outcome", "msg", "err", "diff", "gaps", "overlaps", "len", "hdr", "n") if k in bad}
+    detail = {k: bad[k] for k in ("outcome", "msg", "err", "diff", "gaps", "overlaps", "len", "hdr", "n", "npairs", "nread", "missing") if k in bad}
     what = ("%s encoding violates the property at the %s step (%s): %s. Input: %s" % (
         case["tab"], bad["ev"], ", ".join(tags), json.dumps(detail)[:500], _describe(case)[:900]))
     ctx.violation(what, sig=_case_sig(case, tag), case={"mode": "run", "case": case})
@@ -351,12 +351,17 @@ def run(ctx):
     for k in ("shapes", "cov", "cdef"):
         if not R[k].ok or not R[k].cases:
             raise vlib.Infra("generator %s failed: %s %s" % (k, R[k].violated, R[k].error_text[:800]))
-    gen = {"shape": [], "huge": [], "off": [], "field": [], "gdef": [], "lists": []}
+    gen = {"shape": [], "boundary": [], "huge": [], "off": [], "field": [], "gdef": [], "lists": [], "geom": []}
     for c in R["shapes"].cases:
         if c["what"] == "shape" and c["k"].startswith("huge"):
             gen["huge"].append(c)
         elif c["what"] == "shape" and c["k"] == "off":
             gen["off"].append(c)
+        elif c["what"] == "shape" and (max(c["n"], c["m"]) >= 255 or
+                                       (c["m"] == 0 and c["n"] == 2 and c["c"] == 0 and c["f"] == 0)):
+            # counts at the 8-bit carry, and the structural variants "empty but non-nil" (m = 0) next to nil
+            # (v = 1) rule sets / sequences / rows, each followed by more data: realised in every run
+            gen["boundary"].append(c)
         else:
             gen[c["what"]].append(c)
     if not all(gen.values()):
@@ -366,8 +371,13 @@ def run(ctx):
         "sizes": "abstract sizes {10,100,30000,40000,65000,66000}, 1-6 lookups, 1-3 subtables, with/without mark filtering set",
         "realised": "stratified seeded sample of the plans (every class of model verdict x reordering x replaced lookups x "
                     "lookup count), plus contextual-only variants",
+        "always_realised": "%d shapes with counts 255/256/257 or empty-but-non-nil next to nil parts (each followed by a second subtable and a second lookup), %d reader-geometry lookup lists (40/100/300 lookups behind 6 "
+                           "paddings; 255/256/257 lookups; 2/255/256/257/509/510/511/600 subtables), every script and language "
+                           "tag of the built-in tables, lists with 255/256/257(/300) language systems, features, feature "
+                           "lookups, optional features, coverage/classdef with 255/256/257 glyphs or ranges"
+                           % (len(gen["boundary"]), len(gen["geom"])),
         "shapes": "%d subtable shapes, %d GDEF, %d script/feature list shapes, %d coverage and %d classdef run structures"
-                  % (len(gen["shape"]) + len(gen["huge"]) + len(gen["off"]), len(gen["gdef"]), len(gen["lists"]),
+                  % (len(gen["shape"]) + len(gen["boundary"]) + len(gen["huge"]) + len(gen["off"]), len(gen["gdef"]), len(gen["lists"]),
                      len(R["cov"].cases), len(R["cdef"].cases)),
     }
     model_gap = sum(1 for p in plans if p["model"] != "ok")
@@ -378,6 +388,8 @@ def run(ctx):
     binp = ctx.build("c08")
     d = ctx.subdir("c08")
     chosen, nclasses = _select_plans(rng, plans, ctx.pick(3, 60), ctx.pick(150, 4000))
+    # the script/feature list size plans are few: all of them, always
+    chosen += [p for p in R["hdr"].cases if p not in chosen]
     lines = []
     for p in chosen:
         q = dict(p)
@@ -406,7 +418,9 @@ def run(ctx):
     # one component beyond 64 KiB, for every subtable format and every component (all of them in both tiers:
     # about 90 cases, a few seconds)
     offs = sorted(gen["off"], key=lambda c: (c["t"], c["big"]))
-    slines = shapes + gen["huge"] + offs + gen["gdef"] + gen["lists"]
+    byjson = lambda c: json.dumps(c, sort_keys=True)
+    slines = (shapes + sorted(gen["boundary"], key=byjson) + gen["huge"] + offs + gen["gdef"]
+              + sorted(gen["lists"], key=byjson) + sorted(gen["geom"], key=byjson))
     ctx.sample({"shape_from_TLC": shapes[0]})
     traces += _run_harness_parallel(ctx, binp, slines, d, "shapes", ctx.pick(2, 8))
 
